@@ -29,6 +29,12 @@ type loop struct {
 	Breaks    []int
 }
 
+// largest values of 1-byte and 2-byte instruction operands
+const (
+	maxOperand1 = 1<<8 - 1
+	maxOperand2 = 1<<16 - 1
+)
+
 // CompilerError represents a compiler error.
 type CompilerError struct {
 	FileSet *parser.SourceFileSet
@@ -119,6 +125,17 @@ func (c *Compiler) Compile(node parser.Node) error {
 		for _, stmt := range node.Stmts {
 			if err := c.Compile(stmt); err != nil {
 				return err
+			}
+		}
+		if c.parent == nil {
+			// instruction operands are 2 bytes wide for constants and
+			// globals; the VM has GlobalsSize global slots
+			if n := c.symbolTable.MaxSymbols(); n > GlobalsSize {
+				return c.errorf(node,
+					"too many global variables: %d (max %d)", n, GlobalsSize)
+			}
+			if n := len(c.constants); n > maxOperand2 {
+				return c.errorf(node, "too many constants: %d", n)
 			}
 		}
 	case *parser.ExprStmt:
@@ -329,6 +346,10 @@ func (c *Compiler) Compile(node parser.Node) error {
 			c.emit(node, parser.OpGetFree, symbol.Index)
 		}
 	case *parser.ArrayLit:
+		if len(node.Elements) > maxOperand2 {
+			return c.errorf(node, "too many array elements: %d",
+				len(node.Elements))
+		}
 		for _, elem := range node.Elements {
 			if err := c.Compile(elem); err != nil {
 				return err
@@ -336,6 +357,10 @@ func (c *Compiler) Compile(node parser.Node) error {
 		}
 		c.emit(node, parser.OpArray, len(node.Elements))
 	case *parser.MapLit:
+		if len(node.Elements)*2 > maxOperand2 {
+			return c.errorf(node, "too many map elements: %d",
+				len(node.Elements))
+		}
 		for _, elt := range node.Elements {
 			// key
 			if len(elt.Key) > MaxStringLen {
@@ -406,6 +431,16 @@ func (c *Compiler) Compile(node parser.Node) error {
 		freeSymbols := c.symbolTable.FreeSymbols()
 		numLocals := c.symbolTable.MaxSymbols()
 		instructions, sourceMap := c.leaveScope()
+		if numLocals > maxOperand1+1 {
+			return c.errorf(node,
+				"too many local variables in function: %d (max %d)",
+				numLocals, maxOperand1+1)
+		}
+		if len(freeSymbols) > maxOperand1 {
+			return c.errorf(node,
+				"too many captured variables in function: %d (max %d)",
+				len(freeSymbols), maxOperand1)
+		}
 
 		for _, s := range freeSymbols {
 			switch s.Scope {
@@ -488,6 +523,10 @@ func (c *Compiler) Compile(node parser.Node) error {
 			c.emit(node, parser.OpReturn, 1)
 		}
 	case *parser.CallExpr:
+		if len(node.Args) > maxOperand1 {
+			return c.errorf(node, "too many arguments in call: %d (max %d)",
+				len(node.Args), maxOperand1)
+		}
 		if err := c.Compile(node.Func); err != nil {
 			return err
 		}
@@ -676,6 +715,10 @@ func (c *Compiler) compileAssign(
 	if op == token.Define && numSel > 0 {
 		// using selector on new variable does not make sense
 		return c.errorf(node, "operator ':=' not allowed with selector")
+	}
+	if numSel > maxOperand1 {
+		return c.errorf(node, "too many selectors in assignment: %d (max %d)",
+			numSel, maxOperand1)
 	}
 
 	_, isFunc := rhs[0].(*parser.FuncLit)
@@ -1028,6 +1071,11 @@ func (c *Compiler) compileModule(
 	moduleCompiler.optimizeFunc(node)
 	compiledFunc := moduleCompiler.Bytecode().MainFunction
 	compiledFunc.NumLocals = symbolTable.MaxSymbols()
+	if compiledFunc.NumLocals > maxOperand1+1 {
+		return nil, c.errorf(node,
+			"too many local variables in module: %d (max %d)",
+			compiledFunc.NumLocals, maxOperand1+1)
+	}
 	c.storeCompiledModule(modulePath, compiledFunc)
 	return compiledFunc, nil
 }
